@@ -153,7 +153,8 @@ def sum_forward(a:np.ndarray, axis:'None| int | tuple', keepdims:bool):
 
 def sum_backward(grad:np.ndarray, a_shape:tuple, axis:'None| int | tuple', keepdims:bool):
     out_grad = np.zeros(a_shape, dtype=grad.dtype)
-    if not keepdims and axis is not None:
+    # (np.sum / np.max / np.min accept axis 0 or -1 on a 0-d array and reduce nothing: no dim to put back)
+    if not keepdims and axis is not None and len(a_shape) > 0:
         grad = unsqueeze_forward(grad, axis)
 
     out_grad = out_grad + grad
@@ -188,6 +189,7 @@ def first_extremum_mask(a, axis, arg_fn):
     if axis is None: axes = list(range(a.ndim))
     elif isinstance(axis, int): axes = [axis]
     else: axes = list(axis)
+    if a.ndim == 0: axes = [] # 0-d array: axis 0 or -1 is accepted by np.max / np.min and reduces nothing
     axes = sorted(ax + a.ndim if ax < 0 else ax for ax in axes)
     kept = [ax for ax in range(a.ndim) if ax not in axes]
     # reduced axes last, flattened into one axis
@@ -211,7 +213,7 @@ def max_backward(grad, a, axis, keepdims, max_indices=None):
         else:
             np.put_along_axis(mask, max_indices, 1, axis=axis)
     
-    if not keepdims and axis is not None:
+    if not keepdims and axis is not None and a.ndim > 0:
         grad = unsqueeze_forward(grad, axis)
     
     return grad * mask
@@ -224,7 +226,7 @@ def min_backward(grad, a, axis, keepdims):
     # Create mask of ones and zeros, where the minimum value is 1 
     mask = first_extremum_mask(a, axis, np.argmin)
     
-    if not keepdims and axis is not None:
+    if not keepdims and axis is not None and a.ndim > 0:
         grad = unsqueeze_forward(grad, axis)
     
     return grad * mask
